@@ -149,3 +149,17 @@ PROPS["C08"] = {
     "quick": {"configs": ["default", "arduino"], "cases": 400000, "sweep": True, "floor_evaluations": 500000, "floor_nontrivial": 100000},
     "thorough": {"configs": ["default", "arduino"], "cases": 5000000, "sweep": True, "floor_evaluations": 3000000},
 }
+
+NUM_ROWS = ["default", "num01", "num10", "num00"]
+PROPS["C09"] = {
+    "title": "Well-formed MessagePack decodes to the value it encodes; malformed is classified",
+    "src": "c09.cpp",
+    "level": "exploration",
+    "technique": "property-based testing with an independent encoder making generated (non-minimal) width choices; every proper prefix; single-byte corruptions and injected 0xC1 / non-string keys judged by an independent strict decoder; 4 number configurations; bit-level doubleToFloat sub-check",
+    "rule": "case = generated value (all families incl. bin/ext in minimal and forced widths, NaN/Inf, duplicate keys 10%, depth up to 30 with nesting limit 0..32) encoded by the reference encoder with a generated width per item; executed: the full encoding, every proper prefix (all offsets when <= 160 bytes, else the first 24 and 24 random), 4 single-byte corruptions, 0xC1 at a value position, a non-string key; non-trivial = the encoding uses >= 1 non-minimal width or >= 2 nesting levels; distinct = hash of the encoding",
+    "level_text": "Exploration against a reference codec written from the specification: Ok + equal value (integers exact or null when outside the configured range, floats equal in value or rounded to float when doubles are disabled, bin/ext retained so that re-serialization decodes to the same value), IncompleteInput for every proper prefix, InvalidInput for 0xC1 and non-string keys, reference verdict for corruptions.",
+    "level_note": "Declared string lengths above the 65535-byte capacity may give NoMemory before the truncation is noticed (zone, counted). Duplicate map keys are executed for safety only.",
+    "quick": {"configs": NUM_ROWS, "cases": 120000, "floor_evaluations": 300000, "floor_nontrivial": 40000,
+              "require_labels": ["c1-injected", "nonstring-key-injected", "nonminimal-width", "has-bin-ext"]},
+    "thorough": {"configs": NUM_ROWS, "cases": 4000000, "floor_evaluations": 10000000},
+}
